@@ -6,9 +6,11 @@ import (
 	"time"
 
 	"cosmossdk.io/collections"
+	"cosmossdk.io/core/header"
 	sdkmath "cosmossdk.io/math"
 	slashingtypes "cosmossdk.io/x/slashing/types"
 	abci "github.com/cometbft/cometbft/abci/types"
+	cmtproto "github.com/cometbft/cometbft/api/cometbft/types/v1"
 	cmttypes "github.com/cometbft/cometbft/api/cometbft/types/v1"
 	sdk "github.com/cosmos/cosmos-sdk/types"
 	authtypes "github.com/cosmos/cosmos-sdk/x/auth/types"
@@ -134,4 +136,13 @@ func (w *world) entries(ctx sdk.Context, v int) int {
 		return 0
 	}
 	return len(ubd.Entries)
+}
+
+// msgCtx is the context messages run in: the committed state, at the height of the next block
+// (as a transaction of that block would see it; x/distribution treats a delegation touched at
+// the current height as having no rewards yet, so the height matters) and the last block time.
+func (w *world) msgCtx() sdk.Context {
+	h := w.h
+	return h.App.NewUncachedContext(false, cmtproto.Header{Height: h.Height + 1, Time: h.Time, ChainID: apph.ChainID}).
+		WithHeaderInfo(header.Info{Height: h.Height + 1, Time: h.Time, ChainID: apph.ChainID})
 }
